@@ -203,6 +203,23 @@ fn items() -> Vec<It> {
   let mut out = atoms.clone();
   out.push(It::A(vec![]));
   out.push(It::M(vec![]));
+  // self-described CBOR (tag 55799) and other tags whose head can be widened
+  out.push(It::Tag(55799, Box::new(It::T("a".into()))));
+  out.push(It::Tag(55799, Box::new(It::U(1))));
+  out.push(It::Tag(0xffff_ffff, Box::new(It::Null)));
+  // deep nesting: the same item with definite and with indefinite heads must be treated alike
+  for depth in [16usize, 64, 128, 129, 200, 600] {
+    let mut x = It::U(0);
+    for _ in 0..depth {
+      x = It::A(vec![x]);
+    }
+    out.push(x);
+    let mut y = It::U(0);
+    for _ in 0..depth {
+      y = It::M(vec![(It::U(1), y)]);
+    }
+    out.push(y);
+  }
   for a in &atoms {
     out.push(It::A(vec![a.clone()]));
     out.push(It::Tag(1, Box::new(a.clone())));
